@@ -268,7 +268,7 @@ def gen_argv(rng, helpers_spec, tier):
     for name, shp in shapes.items():
         if isinstance(shp, int):
             combos = []
-            for _ in range(6 if tier == "quick" else 60):
+            for _ in range(5 if tier == "quick" else 40):
                 combos.append([rng.choice(nums) for _ in range(shp + rng.choice([0, 0, 0, 1, -1]) if shp else 0)])
             shp = combos + [[], ["-h"]]
         for a in shp:
@@ -358,7 +358,7 @@ def cases(ctx):
                   ["--seed", "3", "randkcnf", "3", "5", "4", "-T", "lift", "2"], ["op", "4", "--total", "-T", "or", "2"],
                   ["peb", "pyramid", "2", "-T", "xorcomp", "3", "2"], ["-of", "opb", "--varnames", "count", "4", "2"],
                   ["subgraph", "-G", "complete", "4", "-H", "complete", "2"], ["stone", "2", "path", "3", "--sparse", "1"]]
-    for _ in range(70 if tier == "quick" else 4000):
+    for _ in range(50 if tier == "quick" else 2500):
         a = list(rng.choice(seeds_argv))
         for _e in range(rng.choice([1, 1, 2])):
             k = rng.randrange(4)
